@@ -20,6 +20,7 @@ PROPS["C16"] = dict(
         "Zrnt.Proofs.C16.history_prefix_shared",
         "Zrnt.Proofs.C16.old_lookup_reports_sibling_entry",
         "Zrnt.Proofs.C16.old_addValidator_diverges",
+        "Zrnt.Proofs.C16.old_addValidator_never_terminates",
     ],
     modes=[dict(name="c16", stateful=True, max_shrinks=4)],
     level="proof",
